@@ -220,7 +220,20 @@ func (e *c12Env) establish(c c12Caps) {
 
 // c12Reason mirrors established(): which reason reaches handleFSMMessage when the session ends in
 // way k (checked against the real function by TestVerifC12Session).
-func c12Reason(enabled, notif bool, k int) fsmStateReasonType {
+// c12NotifDefault fills in the (code, subcode) of the NOTIFICATION for corpus lines that name only the kind.
+func c12NotifDefault(k int) (int, int) {
+	switch k {
+	case c12NotifRecv:
+		return 6, 6 // Cease / Other Configuration Change
+	case c12NotifRecvHard:
+		return 6, 9 // Cease / Hard Reset
+	case c12NotifSent:
+		return 3, 1 // UPDATE Message Error / Malformed Attribute List
+	}
+	return 0, 0
+}
+
+func c12Reason(enabled, notif bool, k, code, sub int) fsmStateReasonType {
 	raw, via, holdNotif := fsmReadFailed, true, false
 	switch k {
 	case c12ReadFail:
@@ -241,10 +254,9 @@ func c12Reason(enabled, notif bool, k int) fsmStateReasonType {
 		} else {
 			raw = fsmWriteFailed
 		}
-	case c12NotifRecv:
-		raw = fsmNotificationRecv
-	case c12NotifRecvHard:
-		if enabled && notif {
+	case c12NotifRecv, c12NotifRecvHard:
+		// recvMessageloop: Hard Reset is Cease (6) / subcode 9 and nothing else
+		if enabled && notif && code == 6 && sub == 9 {
 			raw = fsmHardReset
 		} else {
 			raw = fsmNotificationRecv
@@ -262,10 +274,10 @@ func c12Reason(enabled, notif bool, k int) fsmStateReasonType {
 	return raw
 }
 
-func (e *c12Env) loss(k int) {
+func (e *c12Env) loss(k, code, sub int) {
 	conf := e.p.fsm.pConf.ReadOnly()
 	st := conf.GracefulRestart.State
-	r := c12Reason(st.Enabled, st.NotificationEnabled, k)
+	r := c12Reason(st.Enabled, st.NotificationEnabled, k, code, sub)
 	if r == fsmGracefulRestart {
 		e.restartAt = e.now + int(st.PeerRestartTime)
 	}
@@ -546,22 +558,23 @@ func (o *c12Oracle) est(c c12Caps) {
 	}
 }
 
-func c12SpecGraceful(grNeg, nNeg bool, k int) bool {
+func c12SpecGraceful(grNeg, nNeg bool, k, code, sub int) bool {
 	if !grNeg {
 		return false
 	}
 	switch k {
 	case c12ReadFail, c12WriteFail, c12HoldExpiry, c12HoldExpiryWriteErr:
 		return true
-	case c12NotifRecv:
-		return nNeg
+	case c12NotifRecv, c12NotifRecvHard:
+		// RFC 8538: with the N bit every received NOTIFICATION is graceful except Cease / Hard Reset (6/9)
+		return nNeg && !(code == 6 && sub == 9)
 	}
 	return false
 }
 
-func (o *c12Oracle) loss(k int) {
+func (o *c12Oracle) loss(k, code, sub int) {
 	o.up = false
-	if !c12SpecGraceful(o.grNeg, o.nNeg, k) {
+	if !c12SpecGraceful(o.grNeg, o.nNeg, k, code, sub) {
 		o.routes = map[[2]int]*c12ORoute{}
 		o.retaining, o.restartAt, o.llPhase = false, -1, false
 		o.llDeadline = map[int]int{}
@@ -741,7 +754,9 @@ func (ev c12Ev) line() string {
 	switch ev.op {
 	case "est":
 		return ev.caps.line()
-	case "loss", "eor", "tick":
+	case "loss":
+		return fmt.Sprintf("loss %d %d %d", ev.a[0], ev.a[1], ev.a[2])
+	case "eor", "tick":
 		return fmt.Sprintf("%s %d", ev.op, ev.a[0])
 	case "goto":
 		return fmt.Sprintf("goto %d %d", ev.a[0], ev.a[1])
@@ -873,7 +888,20 @@ func c12GenHistory(r *vRand, cfg c12Cfg, maxEv int) []c12Ev {
 			default:
 				k := r.pick(c12ReadFail, c12ReadFail, c12WriteFail, c12HoldExpiry, c12HoldExpiry, c12HoldExpiryWriteErr, c12NotifRecv, c12NotifRecv,
 					c12NotifRecvHard, c12NotifSent, c12AdminDown, c12PrefixLimit)
-				evs = append(evs, c12Ev{op: "loss", a: [5]int{k}})
+				code, sub := c12NotifDefault(k)
+				all := []int{0, 1, 2, 3, 4, 5, 6, 7, 8, 255}
+				switch {
+				case k == c12NotifSent:
+					code, sub = 1+r.intn(6), r.intn(13)
+				case k != c12NotifRecv: // other kinds; c12NotifRecvHard stays Cease / Hard Reset
+				case r.chance(30):
+					code, sub = 6, r.pick(0, 1, 2, 3, 4, 5, 6, 7, 8, 9, 9, 10, 11, 12, 255)
+				case r.chance(45):
+					code, sub = r.pick(0, 1, 2, 3, 4, 5, 7, 255), 9 // Hard Reset's subcode under another code
+				default:
+					code, sub = all[r.intn(len(all))], r.pick(0, 1, 2, 3, 4, 5, 6, 7, 8, 9, 10, 11, 12, 255)
+				}
+				evs = append(evs, c12Ev{op: "loss", a: [5]int{k, code, sub}})
 				est, state = false, 0
 				cands = append(cands, now+caps.time)
 				for _, lt := range caps.ltuples {
@@ -945,20 +973,32 @@ func c12RunHistory(t *testing.T, o *vOut, cfg c12Cfg, evs []c12Ev, corpus string
 				}
 			case "loss":
 				conf := e.p.fsm.pConf.ReadOnly()
-				if c12Reason(conf.GracefulRestart.State.Enabled, conf.GracefulRestart.State.NotificationEnabled, ev.a[0]) == fsmGracefulRestart {
+				if c12Reason(conf.GracefulRestart.State.Enabled, conf.GracefulRestart.State.NotificationEnabled, ev.a[0], ev.a[1], ev.a[2]) == fsmGracefulRestart {
 					o.stat("loss_graceful", 1)
 				} else {
 					o.stat("loss_other", 1)
 				}
 				o.stat("loss_"+c12LossName[ev.a[0]], 1)
-				if judging && or.llPhase && c12SpecGraceful(or.grNeg, or.nNeg, ev.a[0]) {
+				if ev.a[0] == c12NotifRecv || ev.a[0] == c12NotifRecvHard {
+					switch {
+					case ev.a[1] == 6 && ev.a[2] == 9:
+						o.stat("notif_recv_cease_hard_reset", 1)
+					case ev.a[2] == 9:
+						o.stat("notif_recv_subcode9_other_code", 1)
+					case ev.a[1] == 6:
+						o.stat("notif_recv_cease_other", 1)
+					default:
+						o.stat("notif_recv_other", 1)
+					}
+				}
+				if judging && or.llPhase && c12SpecGraceful(or.grNeg, or.nNeg, ev.a[0], ev.a[1], ev.a[2]) {
 					// a further graceful loss while long-lived timers are still running: RFC 9494 keeps the
 					// timers; what the routes learned in between are owed is not settled by the property
 					judging = false
 					o.stat("unjudged_graceful_loss_during_llgr", 1)
 				}
-				e.loss(ev.a[0])
-				or.loss(ev.a[0])
+				e.loss(ev.a[0], ev.a[1], ev.a[2])
+				or.loss(ev.a[0], ev.a[1], ev.a[2])
 			case "goto":
 				reason := fsmReadFailed
 				if ev.a[1] == 1 {
@@ -1092,6 +1132,9 @@ func c12Parse(hist string) (c12Cfg, []c12Ev) {
 		default:
 			ev := c12Ev{op: f[0]}
 			copy(ev.a[:], n[1:])
+			if f[0] == "loss" && len(f) == 2 {
+				ev.a[1], ev.a[2] = c12NotifDefault(ev.a[0])
+			}
 			evs = append(evs, ev)
 		}
 	}
@@ -1110,7 +1153,7 @@ func TestVerifC12(t *testing.T) {
 		o.stat("corpus_cases", 1)
 	}
 	r := &vRand{s: o.seed*7919 + 12}
-	n, maxEv := 600, 28
+	n, maxEv := 500, 28
 	if o.thorough {
 		n, maxEv = 5000, 40
 	}
@@ -1154,7 +1197,7 @@ func (c *c12PipeConn) Write(b []byte) (int, error) {
 	return c.Conn.Write(b)
 }
 
-func c12SessionCase(t *testing.T, o *vOut, cfgGR, cfgNotif, capGR, capN bool, k int) {
+func c12SessionCase(t *testing.T, o *vOut, cfgGR, cfgNotif, capGR, capN bool, k, code, sub int) {
 	synctest.Test(t, func(t *testing.T) {
 		cfg := c12Cfg{gr: cfgGR, nb: cfgNotif, deferral: 33, fams: []c12FamCfg{{id: 0, mpCfg: true}}}
 		e := c12NewEnv(t, cfg)
@@ -1210,12 +1253,10 @@ func c12SessionCase(t *testing.T, o *vOut, cfgGR, cfgNotif, capGR, capN bool, k 
 		case c12HoldExpiryWriteErr:
 			time.Sleep(70 * time.Second)
 			conn.failWrites.Store(true)
-		case c12NotifRecv:
-			send(bgp.NewBGPNotificationMessage(bgp.BGP_ERROR_CEASE, bgp.BGP_ERROR_SUB_OTHER_CONFIGURATION_CHANGE, nil))
-		case c12NotifRecvHard:
-			send(bgp.NewBGPNotificationMessage(bgp.BGP_ERROR_CEASE, bgp.BGP_ERROR_SUB_HARD_RESET, nil))
+		case c12NotifRecv, c12NotifRecvHard:
+			send(bgp.NewBGPNotificationMessage(uint8(code), uint8(sub), nil))
 		case c12NotifSent:
-			e.p.fsm.notification <- bgp.NewBGPNotificationMessage(bgp.BGP_ERROR_UPDATE_MESSAGE_ERROR, bgp.BGP_ERROR_SUB_MALFORMED_ATTRIBUTE_LIST, nil)
+			e.p.fsm.notification <- bgp.NewBGPNotificationMessage(uint8(code), uint8(sub), nil)
 		case c12AdminDown:
 			e.p.fsm.adminStateCh <- adminStateOperation{State: adminStateDown}
 		case c12PrefixLimit:
@@ -1263,15 +1304,11 @@ func c12SessionCase(t *testing.T, o *vOut, cfgGR, cfgNotif, capGR, capN bool, k 
 		local.Close()
 
 		graceful := got.reason.Type == fsmGracefulRestart
-		o.ask(fmt.Sprint(c12b(graceful)), "graceful %d %d %d", c12b(enabled), c12b(notif), k)
+		o.ask(fmt.Sprint(c12b(graceful)), "graceful %d %d %d %d %d", c12b(enabled), c12b(notif), k, code, sub)
 		o.stat(fmt.Sprintf("session_%s_graceful%d", c12LossName[k], c12b(graceful)), 1)
-		detail := map[string]any{"cfgGR": cfgGR, "cfgNotif": cfgNotif, "openHasGR": capGR, "openNbit": capN, "loss": c12LossName[k],
+		detail := map[string]any{"cfgGR": cfgGR, "cfgNotif": cfgNotif, "openHasGR": capGR, "openNbit": capN, "loss": c12LossName[k], "code": code, "subcode": sub,
 			"reason": int(got.reason.Type), "adjRibIn": c12Routes(e.adjIn())}
-		if want := c12Reason(enabled, notif, k); want != got.reason.Type {
-			detail["mirror"] = int(want)
-			o.fail("harness-mirror-of-established-differs:"+c12LossName[k], detail)
-		}
-		spec := c12SpecGraceful(cfgGR && capGR, cfgGR && capGR && cfgNotif && capN, k)
+		spec := c12SpecGraceful(cfgGR && capGR, cfgGR && capGR && cfgNotif && capN, k, code, sub)
 		adj := e.adjIn()
 		kept := len(adj) == 1 && adj[0].stale
 		gone := len(adj) == 0
@@ -1281,6 +1318,10 @@ func c12SessionCase(t *testing.T, o *vOut, cfgGR, cfgNotif, capGR, capN bool, k 
 		if !spec && !gone {
 			o.fail("stale-route-outlives-its-allowance@loss:"+c12LossName[k], detail)
 		}
+		if want := c12Reason(enabled, notif, k, code, sub); want != got.reason.Type {
+			detail["mirror"] = int(want)
+			o.fail("harness-mirror-of-established-differs:"+c12LossName[k], detail)
+		}
 	})
 }
 
@@ -1289,8 +1330,32 @@ func TestVerifC12Session(t *testing.T) {
 	defer o.close()
 	o.sample("every loss kind x (GR configured, N configured, OPEN has GR, OPEN has N): real fsmHandler.established() over net.Pipe in a synctest bubble")
 	for k := 0; k < c12NLoss; k++ {
+		code, sub := c12NotifDefault(k)
 		for m := 0; m < 16; m++ {
-			c12SessionCase(t, o, m&1 != 0, m&2 != 0, m&4 != 0, m&8 != 0, k)
+			c12SessionCase(t, o, m&1 != 0, m&2 != 0, m&4 != 0, m&8 != 0, k, code, sub)
+		}
+	}
+	// the whole (code, subcode) space of NOTIFICATIONs, received and sent, through the real recvMessageloop /
+	// established(): all defined codes, 0, two undefined ones, subcodes 0..12 and 255
+	combos := []int{15, 7, 13, 11} // GR+N negotiated; OPEN without N; N not configured; OPEN without GR
+	if o.thorough {
+		combos = []int{0, 1, 2, 3, 4, 5, 6, 7, 8, 9, 10, 11, 12, 13, 14, 15}
+	}
+	subs := []int{0, 1, 2, 3, 4, 5, 6, 7, 8, 9, 10, 11, 12, 255}
+	for _, code := range []int{0, 1, 2, 3, 4, 5, 6, 7, 8, 255} {
+		for _, sub := range subs {
+			for _, m := range combos {
+				c12SessionCase(t, o, m&1 != 0, m&2 != 0, m&4 != 0, m&8 != 0, c12NotifRecv, code, sub)
+				o.stat("session_notif_recv_sweep", 1)
+			}
+		}
+	}
+	for code := 1; code <= 7; code++ {
+		for _, sub := range subs {
+			for _, m := range combos[:2] {
+				c12SessionCase(t, o, m&1 != 0, m&2 != 0, m&4 != 0, m&8 != 0, c12NotifSent, code, sub)
+				o.stat("session_notif_sent_sweep", 1)
+			}
 		}
 	}
 }
@@ -1420,7 +1485,7 @@ func TestVerifC12Export(t *testing.T) {
 			freshQ[p1] = "src:65002 ll=0"
 			check("fresh", r, "R", fresh)
 			check("fresh", q, "Q", freshQ)
-			e.loss(c12ReadFail)
+			e.loss(c12ReadFail, 0, 0)
 			q.drain()
 			r.drain()
 			check("stale", r, "R", fresh) // GR-stale routes stay advertised unchanged
